@@ -88,7 +88,8 @@ RemGen(f) == /\ IF Has(gen, f)
 Next == \/ \E c \in Convs : Register(c) \/ Unregister(c) \/ Enter(c)
         \/ Leave("leave") \/ Leave("leave_exc")
         \/ \E f \in Gens : RegGen(f) \/ RemGen(f)
-Bound == TLCGet("level") <= MaxSteps
+\* the initial state has level 1: histories of at most MaxSteps steps
+Bound == TLCGet("level") <= MaxSteps + 1
 Spec == Init /\ [][Next]_vars
 
 (* ---- properties ------------------------------------------------------- *)
